@@ -517,7 +517,96 @@ def _nothing_dropped(ctx, sync, graph, loop, cvar):
                'visited', construct='final loop after the container loop')
 
 
+def _generation_id(ctx):
+    """Two generations of one instance get different container names: the
+    generation id folds the event file's change time at sub-second
+    resolution, its inode and the instance number."""
+    from ..index import try_fold
+    mod = ctx.index.module('treadmill.appcfg')
+    func = mod.functions.get('gen_uniqueid')
+    ctx.require(func is not None, 'appcfg.gen_uniqueid')
+    defs = {}
+    for sub in K.walk_no_nested(func.node):
+        tgt = None
+        if isinstance(sub, ast.Assign) and len(sub.targets) == 1:
+            tgt = sub.targets[0]
+        elif isinstance(sub, ast.AugAssign):
+            tgt = sub.target
+        if tgt is None:
+            continue
+        names = [tgt.id] if isinstance(tgt, ast.Name) else [
+            e.id for e in getattr(tgt, 'elts', [])
+            if isinstance(e, ast.Name)]
+        for name in names:
+            defs.setdefault(name, []).append(sub.value)
+
+    def sources(expr, seen):
+        out = set()
+        for sub in ast.walk(expr):
+            if isinstance(sub, ast.Attribute) and \
+                    sub.attr.startswith('st_'):
+                out.add(sub.attr)
+            if isinstance(sub, ast.Name):
+                if sub.id in func.params():
+                    out.add('param:' + sub.id)
+                if sub.id in defs and sub.id not in seen:
+                    seen.add(sub.id)
+                    for val in defs[sub.id]:
+                        out |= sources(val, seen)
+        return out
+    rets = [sub for sub in K.walk_no_nested(func.node)
+            if isinstance(sub, ast.Return) and sub.value is not None]
+    ctx.require(rets, 'return of gen_uniqueid')
+    for ret in rets:
+        src = sources(ret.value, set())
+        times = src & {'st_ctime', 'st_ctime_ns', 'st_mtime', 'st_mtime_ns'}
+        ok = bool(times) and 'st_ino' in src and \
+            any(s.startswith('param:') for s in src)
+        ctx.ob('C13.1', func, ret, ok,
+               'the generation id depends on the event file change time, '
+               'its inode and its name (sources: %s)' % sorted(src),
+               construct='generation id sources')
+    # resolution of the time component
+    for name, vals in sorted(defs.items()):
+        for val in vals:
+            for sub in ast.walk(val):
+                if not (isinstance(sub, ast.Attribute) and
+                        sub.attr in ('st_ctime', 'st_mtime')):
+                    continue
+                ok = _scaled_before_truncation(ctx, mod, val, sub)
+                ctx.ob('C13.1', func, val, ok,
+                       'the change time is scaled to sub-second units '
+                       'before it is truncated to an integer: %s = %s' % (
+                           name, N.txt(val)),
+                       construct='generation id time resolution')
+
+
+def _scaled_before_truncation(ctx, mod, root, leaf):
+    from ..index import try_fold
+    parents = {}
+    for node in ast.walk(root):
+        for child in ast.iter_child_nodes(node):
+            parents[child] = node
+    cur = leaf
+    scale = 1
+    while cur in parents:
+        par = parents[cur]
+        if isinstance(par, ast.BinOp) and isinstance(par.op, ast.Mult):
+            other = par.right if par.left is cur else par.left
+            val = try_fold(ctx.index, mod, other)
+            if isinstance(val, (int, float)) and val > 0:
+                scale *= val
+        elif isinstance(par, ast.BinOp) and isinstance(par.op, ast.FloorDiv):
+            return scale >= 1000
+        elif isinstance(par, ast.Call) and N.txt(par.func) in (
+                'int', 'round', 'math.floor', 'math.trunc', 'math.ceil'):
+            return scale >= 1000
+        cur = par
+    return True
+
+
 def check(ctx):
+    _generation_id(ctx)
     acm = ctx.index.get_class(ACM, 'AppCfgMgr')
     sync, term, graph, loop, cvar, ksync = _kinds(ctx, acm)
     _handover(ctx, acm, term)
